@@ -124,9 +124,9 @@ class CellResolutionAttribute:
 
     if cr is not None:
 
-      m = CellResolutionAttribute._CELL_RESOLUTION_RE.match(cr)
+      m = CellResolutionAttribute._CELL_RESOLUTION_RE.fullmatch(cr)
 
-      if m is not None:
+      if m is not None and int(m.group(1)) > 0 and int(m.group(2)) > 0:
 
         return model.CellResolutionType(columns=int(m.group(1)), rows=int(m.group(2)))
 
@@ -267,9 +267,9 @@ class AspectRatioAttribute:
     if ar_raw is None:
       return None
 
-    m = AspectRatioAttribute._re.match(ar_raw)
+    m = AspectRatioAttribute._re.fullmatch(ar_raw)
 
-    if m is None:
+    if m is None or int(m.group(1)) == 0:
       LOGGER.error("ittp:aspectRatio invalid syntax")
       return None
 
@@ -299,9 +299,9 @@ class DisplayAspectRatioAttribute:
     if ar_raw is None:
       return None
 
-    m = DisplayAspectRatioAttribute._re.match(ar_raw)
+    m = DisplayAspectRatioAttribute._re.fullmatch(ar_raw)
 
-    if m is None:
+    if m is None or int(m.group(1)) == 0:
       LOGGER.error("ttp:displayAspectRatio invalid syntax")
       return None
 
